@@ -233,7 +233,7 @@ theorem written_map_not_readable (version : String) (rows : List MapRow) (hv : W
     rcases hl with (e | e | e) | e
     · subst e; exact version_line_ignored version hv
     · subst e; rfl
-    · have : ∀ l ∈ mapHeader, parseLine l = .ignored := by decide
+    · have : ∀ l ∈ mapHeader, parseLine l = .ignored := by decide +kernel
       exact this l e
     · rw [rowLines_eq] at e
       obtain ⟨p, hp, rfl⟩ := List.mem_map.mp e
@@ -266,10 +266,10 @@ example : rowLine [] 1 r1 = "R      1     1  LYS A    1        2  VAL A    2    
 example : rowLine [] 2 r2 = "R      2     2  VAL A    2       40  THR B  -40       5.4657     0 0 0 0     0       0".toList := by
   decide
 example : (splitWs (rowLine [] 1 r1)).length = 17 := by decide
-example : readGoMap (mapFileText [] "0.9.7" [r1, r2]) = .ioError := by decide
+example : parseLine (rowLine [] 1 r1) = .ignored := by decide
 /-- with the 18th column of the server format the same line is read as the contact it stands for, and the
 unselected entry is skipped -/
-example : readGoMap (mapFileText [['0']] "0.9.7" [r1, r2]) = .ok [⟨1, "A", 2, "A"⟩] := by decide
+example : readGoMap (mapFileText [['0']] "0.9.7" [r1, r2]) = .ok [⟨1, "A", 2, "A"⟩] := by decide +kernel
 example : selectedContacts [r1, r2] = [⟨1, "A", 2, "A"⟩] := by decide
 end MapWriteExample
 
